@@ -207,7 +207,12 @@ func (b *vBatchObs) onEvent(evt EventType, e Entity) {
 	// phase: every selected entity shows the old (removal) or new (other) composition and target
 	okPhase := true
 	for k := 0; k < W.n; k++ {
-		if !b.sel[k] || !W.w.Alive(W.e[k].h) {
+		if !b.sel[k] {
+			continue
+		}
+		if !W.w.Alive(W.e[k].h) {
+			// during removal events nothing of the batch may have been removed yet
+			okPhase = okPhase && !removal
 			continue
 		}
 		exp := &b.post[k]
